@@ -196,7 +196,13 @@ def run_exclude(ctx, case, verbose=False):
         if mrc != 0:
             v.add("cli|excl|diff-%s|error" % name, "schema diff (%s) failed rc=%d: %s" % (name, mrc, (merr or mout)[-400:]))
             continue
-        for s_ in L.statements(mout):
+        mst = L.statements(mout)
+        if sub and pt and L.rebuilt(mst, pt) and case["fate"] in ("addcol", "retype", "fkcol-addcol"):
+            # file -> database direction: the added column becomes a dropped one, which makes the SQLite planner rebuild the
+            # table from the definition without the excluded column (the known rebuild root cause, not an ordering problem)
+            v.add(KNOWN_REBUILD_EXCL, "schema diff (%s): the plan rebuilds %s, which holds the excluded column %s, from a definition without it" % (name, pt, pcol), {"plan": mst})
+            continue
+        for s_ in mst:
             hit = L.targets(s_) & bad0
             if hit:
                 v.add("cli|excl|diff-%s|excluded-object-in-plan" % name, "schema diff (%s) statement names excluded %s: %s" % (name, sorted(hit), s_[:300]))
@@ -277,7 +283,8 @@ def run_exclude(ctx, case, verbose=False):
             if n not in want and n not in ex and n in fa:
                 v.add("cli|excl|managed-not-converged|dropped", "managed table %s is not in the file but still exists" % n)
         # (4) second apply
-        if not [k for k, _, _ in v.items if k != KNOWN_INSPECT_FK]:
+        benign_here = {KNOWN_INSPECT_FK} | ({KNOWN_REBUILD_EXCL} if sub and case["fate"] != "retype" else set())  # raised by the inspect / diff legs only
+        if not [k for k, _, _ in v.items if k not in benign_here]:
             rc2, out2, err2 = ctx.atlas_run(args, d)
             if rc2 == 124:
                 ctx.inconclusive("watchdog")
